@@ -1,127 +1,121 @@
-import PikaVerif.Lemmas.Once
-/-! Second group of invariants of the event / call_once model: the flag, the status word,
-    the callable, wake-ups owed. -/
+import PikaVerif.Lemmas.Once2d
+/-! `InvP` is preserved by every event; lifted to all accepted logs. -/
 namespace PikaVerif.Once
 open PikaVerif
 
-def isOnce : Ctx → Bool
-  | .once _ => true
-  | .top => false
+theorem sum_notify (n : Nat) (q : List Nat) (pc : Nat → Pc) (t : Nat) (v : Pc) (w : Pc → Nat)
+    (hw : ∀ p, w (popd p) = w p) (hv : w v = w (pc t)) :
+    sumTo n (fun u => w (upd (fun u => if u ∈ q then popd (pc u) else pc u) t v u)) =
+      sumTo n (fun u => w (pc u)) := by
+  apply sumTo_congr
+  intro u _
+  by_cases hut : u = t
+  · subst hut; simp [upd, hv]
+  · simp only [upd, hut, if_false]
+    split
+    · exact hw _
+    · rfl
 
-/-- Needs the result "thread has seen the flag true" -/
-def needsSet : Pc → Op → Bool
-  | .wPass _, _ => true
-  | .retn _, o => decide (o = .wait)
-  | _, _ => false
+theorem popd_facts2 (p : Pc) : (∀ o, needsSet (popd p) o = needsSet p o) ∧ runW (popd p) = runW p ∧
+    ranOkW (popd p) = ranOkW p ∧ setW (popd p) = setW p ∧ owesSetW (popd p) = owesSetW p ∧
+    (∀ o, needsComplete (popd p) o = needsComplete p o) ∧ onceWaiter (popd p) = onceWaiter p := by
+  cases p <;> simp [popd, needsSet, runW, ranOkW, setW, owesSetW, needsComplete, onceWaiter]
 
-/-- Inside the winner's section of `call_once` (between the CAS and the status store). -/
-def runW : Pc → Nat
-  | .cReset _ | .cBody _ | .cRan _ => 1
-  | _ => 0
-
-/-- A non-throwing callable has been entered and its completion is not yet recorded. -/
-def ranOkW : Pc → Nat
-  | .cRan thr => b2n (!thr)
-  | _ => 0
-
-/-- Stored `true`, `notify_all` still owed. -/
-def setW : Pc → Nat
-  | .sLockW _ | .sLocked _ => 1
-  | _ => 0
-
-/-- Winner of the CAS that still owes the store of `true` into the event flag. -/
-def owesSetW : Pc → Nat
-  | .cReset _ | .cBody _ | .cRan _ => 1
-  | .sWant c => b2n (isOnce c)
-  | _ => 0
-
-/-- Program counters of `call_once` reached only after `complete` was stored / observed. -/
-def needsComplete : Pc → Op → Bool
-  | .sWant c, _ | .sLockW c, _ | .sLocked c, _ | .sRel c, _ => decide (c = .once false)
-  | .retn r, o => decide (r = 0) && isCall o
-  | _, _ => false
-
-/-- Waiting on the event from inside `call_once` (the CAS was lost). -/
-def onceWaiter : Pc → Bool
-  | .wWant c | .wLockW c | .wLocked c | .enq c | .unl c _ | .susp c _ | .wokeNL c _ | .relk c _
-  | .wPass c => isOnce c
-  | _ => false
-
-def rsum (s : St) : Nat := sumTo s.n (fun t => runW (s.pc t))
-def ksum (s : St) : Nat := sumTo s.n (fun t => ranOkW (s.pc t))
-def ssum (s : St) : Nat := sumTo s.n (fun t => setW (s.pc t))
-def osum (s : St) : Nat := sumTo s.n (fun t => owesSetW (s.pc t))
-
-structure InvP (s : St) : Prop where
-  flagSets : s.flag = true → 0 < s.sets
-  passSets : ∀ t, needsSet (s.pc t) (s.curOp t) = true → 0 < s.sets
-  runOne : rsum s = if s.status = .running then 1 else 0
-  compl : s.completions = if s.status = .complete then 1 else 0
-  okRunsEq : s.okRuns = s.completions + ksum s
-  winsPos : s.status ≠ .zero → 0 < s.wins
-  waiterWins : ∀ t, onceWaiter (s.pc t) = true → 0 < s.wins
-  complete : ∀ t, needsComplete (s.pc t) (s.curOp t) = true → s.status = .complete
-  flagQ : s.flag = true → s.queue ≠ [] → 0 < ssum s
-  onceFlag : s.flag = false → s.topResets = 0 → 0 < s.wins → 0 < osum s
-
-theorem invP_init (n : Nat) : InvP (init n) := by
-  refine ⟨?_, ?_, ?_, ?_, ?_, ?_, ?_, ?_, ?_, ?_⟩ <;>
-    simp [init, needsSet, needsComplete, onceWaiter, rsum, ksum, runW, ranOkW]
-  · exact sumTo_eq_zero (fun _ _ => rfl)
-  · exact (sumTo_eq_zero (fun _ _ => rfl)).symm
-
-attribute [local grind] holds inQ b2n tokOf pcOpOk ctxOk isCall wDone sDone entry popd
-  isOnce needsSet runW ranOkW setW owesSetW needsComplete onceWaiter
-
-set_option hygiene false in
-macro "once_stepP" t:term : tactic => `(tactic| (
+theorem step_invP_notifyAll (s s' : St) (t : Nat) (l : List Nat) (hA : Inv s) (hi : InvP s)
+    (h : step s (.notifyAll t l) = some s') : InvP s' := by
   simp only [step] at h
-  try unfold entry at h
-  try unfold wDone at h
-  try unfold sDone at h
-  obtain ⟨h1,h2,h3,h4,h5,h6,h7,h8,h9,h10⟩ := hi
-  have hop := hA.opOk
-  have hlk := hA.lockHolder
+  obtain ⟨h1,h2,h3,h4,h5,h6,h7,h8,h9,h10,h11,h12⟩ := hi
   split at h
   case isFalse => simp at h
   rename_i hg
-  have htn : $t < s.n := by grind
-  have hleR := le_sumTo (f := fun u => runW (s.pc u)) htn
-  have hleK := le_sumTo (f := fun u => ranOkW (s.pc u)) htn
-  have hleS := le_sumTo (f := fun u => setW (s.pc u)) htn
-  have hleO := le_sumTo (f := fun u => owesSetW (s.pc u)) htn
+  obtain ⟨htn, hl, hq⟩ := hg
+  split at h
+  case h_2 => simp at h
+  rename_i c hpc
+  simp only [Option.some.injEq] at h
+  subst h
   simp only [rsum, ksum, ssum, osum] at h3 h5 h9 h10
-  repeat' split at h
-  all_goals first | (simp at h; done) | skip
-  all_goals (
-    simp only [Option.some.injEq] at h
-    subst h
-    refine ⟨?_, ?_, ?_, ?_, ?_, ?_, ?_, ?_, ?_, ?_⟩ <;> dsimp only [rsum, ksum, ssum, osum]
-  )
-  all_goals first
-    | assumption
-    | (intro u; grind [upd])
-    | (rw [sumTo_upd_eq _ _ _ _ _ htn]; grind)
-    | grind [upd]))
+  refine ⟨?_, ?_, ?_, ?_, ?_, ?_, ?_, ?_, ?_, ?_, ?_, ?_⟩ <;> dsimp only [rsum, ksum, ssum, osum]
+  · exact h1
+  · intro u hu
+    by_cases hut : u = t
+    · subst hut; simp [upd, needsSet] at hu
+    · simp only [upd, hut, if_false] at hu
+      split at hu
+      · rw [(popd_facts2 (s.pc u)).1] at hu; exact h2 u hu
+      · exact h2 u hu
+  · rw [sum_notify s.n s.queue s.pc t _ runW (fun p => (popd_facts2 p).2.1) (by rw [hpc]; rfl)]; exact h3
+  · exact h4
+  · rw [sum_notify s.n s.queue s.pc t _ ranOkW (fun p => (popd_facts2 p).2.2.1) (by rw [hpc]; rfl)]; exact h5
+  · exact h6
+  · intro u hu
+    by_cases hut : u = t
+    · subst hut; simp [upd, onceWaiter] at hu
+    · simp only [upd, hut, if_false] at hu
+      split at hu
+      · rw [(popd_facts2 (s.pc u)).2.2.2.2.2.2] at hu; exact h7 u hu
+      · exact h7 u hu
+  · intro u hu
+    by_cases hut : u = t
+    · subst hut
+      have := h8 u
+      rw [hpc] at this
+      simp only [upd, if_true] at hu
+      exact this (by simpa [needsComplete] using hu)
+    · simp only [upd, hut, if_false] at hu
+      split at hu
+      · rw [(popd_facts2 (s.pc u)).2.2.2.2.2.1] at hu; exact h8 u hu
+      · exact h8 u hu
+  · intro _ hne; simp at hne
+  · rw [sum_notify s.n s.queue s.pc t _ owesSetW (fun p => (popd_facts2 p).2.2.2.2.1) (by rw [hpc]; rfl)]; exact h10
+  · exact h11
+  · intro u hu
+    by_cases hut : u = t
+    · subst hut; simp [upd] at hu
+    · simp only [upd, hut, if_false] at hu
+      split at hu
+      · have : s.pc u = .retn 2 := by
+          cases hp : s.pc u <;> simp [hp, popd] at hu ⊢
+          exact hu
+        exact h12 u this
+      · exact h12 u hu
 
-theorem step_invP_inv (s s' : St) (t : Nat) (o : Op) (hA : Inv s) (hi : InvP s) (h : step s (.inv t o) = some s') : InvP s' := by once_stepP t
-theorem step_invP_ret (s s' : St) (t : Nat) (r : Nat) (hA : Inv s) (hi : InvP s) (h : step s (.ret t r) = some s') : InvP s' := by once_stepP t
-theorem step_invP_slAcq (s s' : St) (t : Nat) (hA : Inv s) (hi : InvP s) (h : step s (.slAcq t) = some s') : InvP s' := by once_stepP t
-set_option maxHeartbeats 1600000 in
-theorem step_invP_slRel (s s' : St) (t : Nat) (hA : Inv s) (hi : InvP s) (h : step s (.slRel t) = some s') : InvP s' := by once_stepP t
-theorem step_invP_evLoad (s s' : St) (t : Nat) (v : Bool) (hA : Inv s) (hi : InvP s) (h : step s (.evLoad t v) = some s') : InvP s' := by once_stepP t
-theorem step_invP_evPass (s s' : St) (t : Nat) (v : Bool) (hA : Inv s) (hi : InvP s) (h : step s (.evPass t v) = some s') : InvP s' := by once_stepP t
-set_option maxHeartbeats 1600000 in
-theorem step_invP_stored (s s' : St) (t : Nat) (v : Bool) (hA : Inv s) (hi : InvP s) (h : step s (.stored t v) = some s') : InvP s' := by once_stepP t
-theorem step_invP_cvEnq (s s' : St) (t z : Nat) (hA : Inv s) (hi : InvP s) (h : step s (.cvEnq t z) = some s') : InvP s' := by once_stepP t
-theorem step_invP_cvWoke (s s' : St) (t : Nat) (a : Bool) (hA : Inv s) (hi : InvP s) (h : step s (.cvWoke t a) = some s') : InvP s' := by once_stepP t
-theorem step_invP_suspend (s s' : St) (t : Nat) (hA : Inv s) (hi : InvP s) (h : step s (.suspend t) = some s') : InvP s' := by once_stepP t
-theorem step_invP_woke (s s' : St) (t : Nat) (hA : Inv s) (hi : InvP s) (h : step s (.woke t) = some s') : InvP s' := by once_stepP t
-theorem step_invP_onceLoad (s s' : St) (t : Nat) (hA : Inv s) (hi : InvP s) (h : step s (.onceLoad t) = some s') : InvP s' := by once_stepP t
-theorem step_invP_onceWon (s s' : St) (t : Nat) (hA : Inv s) (hi : InvP s) (h : step s (.onceWon t) = some s') : InvP s' := by once_stepP t
-theorem step_invP_onceLost (s s' : St) (t : Nat) (a : Bool) (hA : Inv s) (hi : InvP s) (h : step s (.onceLost t a) = some s') : InvP s' := by once_stepP t
-theorem step_invP_body (s s' : St) (t : Nat) (a : Bool) (hA : Inv s) (hi : InvP s) (h : step s (.body t a) = some s') : InvP s' := by once_stepP t
-theorem step_invP_onceStored (s s' : St) (t : Nat) (a : Bool) (hA : Inv s) (hi : InvP s) (h : step s (.onceStored t a) = some s') : InvP s' := by once_stepP t
-theorem step_invP_done (s s' : St) (t : Nat) (hA : Inv s) (hi : InvP s) (h : step s (.done t) = some s') : InvP s' := by once_stepP t
+
+theorem step_invP (s s' : St) (e : Ev) (hA : Inv s) (hi : InvP s) (h : step s e = some s') : InvP s' := by
+  cases e with
+  | inv t o => exact step_invP_inv s s' t o hA hi h
+  | ret t r => exact step_invP_ret s s' t r hA hi h
+  | slAcq t => exact step_invP_slAcq s s' t hA hi h
+  | slRel t => exact step_invP_slRel s s' t hA hi h
+  | evLoad t v => exact step_invP_evLoad s s' t v hA hi h
+  | evPass t v => exact step_invP_evPass s s' t v hA hi h
+  | stored t v => exact step_invP_stored s s' t v hA hi h
+  | cvEnq t z => exact step_invP_cvEnq s s' t z hA hi h
+  | notifyAll t l => exact step_invP_notifyAll s s' t l hA hi h
+  | cvWoke t a => exact step_invP_cvWoke s s' t a hA hi h
+  | suspend t => exact step_invP_suspend s s' t hA hi h
+  | woke t => exact step_invP_woke s s' t hA hi h
+  | onceLoad t => exact step_invP_onceLoad s s' t hA hi h
+  | onceWon t => exact step_invP_onceWon s s' t hA hi h
+  | onceLost t a => exact step_invP_onceLost s s' t a hA hi h
+  | body t a => exact step_invP_body s s' t a hA hi h
+  | onceStored t a => exact step_invP_onceStored s s' t a hA hi h
+  | done t => exact step_invP_done s s' t hA hi h
+
+theorem inv_of_accepted {n : Nat} {log : List Ev} {s : St}
+    (h : runLog step (init n) log = some s) : Inv s ∧ InvP s := by
+  have : ∀ (log : List Ev) (s0 s : St), Inv s0 ∧ InvP s0 → runLog step s0 log = some s → Inv s ∧ InvP s := by
+    intro log
+    induction log with
+    | nil => intro s0 s h0 h; simp at h; exact h ▸ h0
+    | cons e es ih =>
+      intro s0 s h0 h
+      simp only [runLog] at h
+      cases hs : step s0 e with
+      | none => simp [hs] at h
+      | some s1 =>
+        simp only [hs] at h
+        exact ih s1 s ⟨step_inv s0 s1 e h0.1 hs, step_invP s0 s1 e h0.1 h0.2 hs⟩ h
+  exact this log _ s ⟨inv_init n, invP_init n⟩ h
 
 end PikaVerif.Once
